@@ -112,6 +112,14 @@ Example C20_example :
   cal_add_days (mkCal [5; 6] [19814]) 19812 (-128) F false = Ok 19684.
 Proof. exact c20_example. Qed.
 
+(* currency codes whose lower-casing changes their UTF-8 length: the 3-byte test is on the LOWER-CASED string, which is what is
+   stored - "\u0130a" (3 bytes as given, 4 stored) / KELVIN SIGN (3 -> 1) / CAPITAL SHARP S (3 -> 2) are rejected,
+   "\u0130" alone (2 bytes as given, 3 stored) and "USD" are accepted in lower case *)
+Example C20_ccy_lowercase_length :
+  Model.FX.ccy_try_new [304; 97] = Err /\ Model.FX.ccy_try_new [8490] = Err /\ Model.FX.ccy_try_new [7838] = Err /\
+  Model.FX.ccy_try_new [304] = Ok [105; 775] /\ Model.FX.ccy_try_new [85; 83; 68] = Ok [117; 115; 100].
+Proof. vm_compute. repeat split. Qed.
+
 Print Assumptions C20_constructors.
 Print Assumptions C20_new_from.
 Print Assumptions C20_cal_new.
